@@ -118,6 +118,12 @@ func NewConn(ctx context.Context, conn net.Conn, options ...Option) (outConn *Co
 	if err != nil {
 		return outConn, err
 	}
+	// The parsed extensions have served their purpose. What a connection
+	// keeps of its hello must not grow with the number of extensions.
+	outConn.outer.Extensions = nil
+	if outConn.inner != nil {
+		outConn.inner.Extensions = nil
+	}
 	return outConn, nil
 }
 
@@ -402,6 +408,7 @@ func (c *Conn) Read(b []byte) (int, error) {
 		n := copy(b, c.readBuf)
 		c.readBuf = c.readBuf[n:]
 		if len(c.readBuf) == 0 {
+			c.readBuf = nil // let go of the buffer
 			return n, c.readErr
 		}
 		return n, nil
